@@ -233,10 +233,21 @@ type TokenSpec struct {
 	// refresh that turns negative, a changed answer, ...).
 	Ans2     *AnswerSpec `json:"ans2,omitempty"`
 	Ans2From int         `json:"ans2_from,omitempty"`
+	// Ans2Only, when not empty, lists the arrival numbers answered with Ans2
+	// (every other arrival gets Ans); Ans2From is ignored then.
+	Ans2Only []int `json:"ans2_only,omitempty"`
 }
 
 // SpecFor returns the answer spec used for the given arrival number.
 func (t *TokenSpec) SpecFor(arrival int) *AnswerSpec {
+	if t.Ans2 != nil && len(t.Ans2Only) > 0 {
+		for _, a := range t.Ans2Only {
+			if a == arrival {
+				return t.Ans2
+			}
+		}
+		return &t.Ans
+	}
 	if t.Ans2 != nil && arrival >= t.Ans2From {
 		return t.Ans2
 	}
